@@ -2,7 +2,7 @@
    Property theorems only: each is closed by [exact] of a lemma proved in Refl/. *)
 From Coq Require Import List Arith NArith.
 Import ListNotations.
-From Muscle Require Import Gen.Consts Refl.Index Refl.IndexProofs Refl.IndexModel Refl.IndexModelProofs Refl.IndexRunProofs Refl.IndexWitness.
+From Muscle Require Import Gen.Consts Refl.Index Refl.IndexProofs Refl.IndexModel Refl.IndexModelProofs Refl.IndexRunProofs Refl.IndexLogProofs Refl.IndexWitness.
 
 (* For every history (any number of sessions, any list of steps, each step one command or a batch of commands of
    one session: ordered inserts, reorders, plain sets, removals, subtree clones, subscriptions/unsubscriptions/
@@ -36,6 +36,24 @@ Theorem C13_log_fits : forall n steps s p, ops_fit (st_hist (run cfg_fixed n ste
 Proof. exact log_fits. Qed.
 Print Assumptions C13_log_fits.
 
+(* what the check actually observes: the stream a step logs for a (client, node) pair -- compared, step by step, with
+   the PR_RESULT_INDEXUPDATED Messages the real client receives -- fits the replica the client held before the step and
+   replays it into the server's index after the step (steps without unsubscription or departure of that client) *)
+Theorem C13_step_replays : forall n steps sc s p,
+  let st := run cfg_fixed n steps in
+  let st' := step cfg_fixed st sc in
+  forallb log_cmd (snd sc) = true -> subscribed st s p = true ->
+  ops_fit (pend_for (st_out st') s p) (st_mirror st s p) = true /\
+  replay (pend_for (st_out st') s p) (st_mirror st s p) = index_at (st_tree st') p.
+Proof. exact step_replays. Qed.
+Print Assumptions C13_step_replays.
+
+(* per command, for pairs that are subscribed afterwards (so also for a client that has just subscribed: its history
+   starts with the snapshot): exactly the part of the logged output addressed to the pair entered its history *)
+Theorem C13_exec_log : forall cfg s st c, Inv st -> log_cmd c = true -> log_spec st (exec cfg s st c).
+Proof. exact exec_log. Qed.
+Print Assumptions C13_exec_log.
+
 Theorem C13_quiescent_clean : forall n steps,
   let st := run cfg_fixed n steps in
   st_pend st = [] /\ forall s p, subscribed st s p = false -> st_mirror st s p = [].
@@ -61,6 +79,29 @@ Theorem C13_detach_clean : forall cfg st s, cfg_ok cfg -> Inv st -> s < st_n st 
   Inv st' /\ st_subs st' s = [] /\ forall p, own s p = true -> has_node (st_tree st') p = false /\ index_at (st_tree st') p = [].
 Proof. exact detach_clean. Qed.
 Print Assumptions C13_detach_clean.
+
+(* quiet removal (PR_NAME_REMOVE_QUIETLY; not one of the commands of [run]): the index invariant and the flag invariant
+   survive, no index changes except the parent's and those of the removed nodes, so every replica except those of the
+   parent and of the removed subtree stays exact; the parent's watchers are stale until they take a snapshot (witness
+   below) -- which is what the flag asks for *)
+Theorem C13_quiet_frame : forall st v, Mid st ->
+  let st' := remove_child_quiet st v in
+  twf (st_tree st') /\ I6 st' /\
+  (forall p, p <> parent_of v -> is_prefix v p = false -> index_at (st_tree st') p = index_at (st_tree st) p) /\
+  (forall s p, subscribed st' s p = true -> p <> parent_of v -> is_prefix v p = false ->
+     replay (pend_for (st_pend st') s p) (st_mirror st' s p) = index_at (st_tree st') p) /\
+  (has_node (st_tree st) v = true ->
+     ~ In (last_name v) (index_at (st_tree st') (parent_of v)) /\
+     forall p, is_prefix v p = true -> has_node (st_tree st') p = false).
+Proof. exact quiet_frame. Qed.
+Print Assumptions C13_quiet_frame.
+
+Theorem C13_quiet_removal_refuted :
+  let st := remove_child_quiet (run cfg_fixed 2 (firstn 3 nv_steps_)) [NS 0; a_; NI 1] in
+  subscribed st 1 [NS 0; a_] = true /\ st_pend st = [] /\
+  index_at (st_tree st) [NS 0; a_] = [NI 2; NI 0] /\ st_mirror st 1 [NS 0; a_] = [NI 2; NI 0; NI 1].
+Proof. exact quiet_removal_refuted. Qed.
+Print Assumptions C13_quiet_removal_refuted.
 
 (* the full invariant, for every configuration that has both repairs *)
 Theorem C13_run_Inv : forall cfg n steps, cfg_ok cfg -> Inv (run cfg n steps).
